@@ -76,7 +76,13 @@ func (k *kernel) bindPartial(ind int, s *ast.AssignStmt, call *ast.CallExpr, fol
 	if s.Tok != token.DEFINE && s.Tok != token.ASSIGN && (compound == "" || len(s.Lhs) != 1) {
 		k.fail(s, "assignment operator %s with a call that may panic", s.Tok)
 	}
+	var ws []*variable
+	if wr := k.writingCallee(call); wr != nil {
+		ws = k.writtenArgs(call, wr)
+		k.allowWrites = true
+	}
 	text, outs := k.partialCallText(call)
+	k.allowWrites = false
 	shapes := k.callShapes(call, outs)
 	if len(shapes) != len(s.Lhs) {
 		k.fail(s, "the %d results of the call are not all assigned", len(shapes))
@@ -102,6 +108,7 @@ func (k *kernel) bindPartial(ind int, s *ast.AssignStmt, call *ast.CallExpr, fol
 	} else {
 		k.bindResultsOf(ind+1, s, tmp, outs, shapes)
 	}
+	k.bindWritten(ind+1, s, tmp, len(outs)-len(ws), len(outs), ws)
 	k.stmts(following, ind+1, rest)
 }
 
@@ -295,18 +302,45 @@ func (k *kernel) listStmt(ind int, s ast.Stmt, call *ast.CallExpr, sel *ast.Sele
 	k.assigned(v)
 }
 
-// `for i := 0; i < N; i++` with a constant N and `i` not used in the body (the bounded loop of a helper)
+// a loop that counts a constant number of times and does not use its counter in the body (the bounded loop of a helper):
+// `for i := A; i < B; i++` (`<=`) or `for i := A; i > B; i--` (`>=`) with integer constants A, B — B-A (resp. A-B) iterations,
+// whichever way it counts
 func (k *kernel) constBounded(s *ast.ForStmt) bool {
-	iv, lo, hi, incl, ok := rangeHeader(s)
-	if !ok || incl {
-		return false
+	_, ok := k.constTrip(s)
+	return ok
+}
+
+func (k *kernel) constTrip(s *ast.ForStmt) (int64, bool) {
+	iv, from, to, incl, ok := rangeHeader(s)
+	down := false
+	if !ok {
+		iv, from, to, incl, ok = downHeader(s)
+		down = true
 	}
-	if z, _ := lo.(*ast.BasicLit); z == nil || z.Value != "0" {
-		return false
+	if !ok {
+		return 0, false
 	}
-	bound, ok := k.constEnv().eval(hi)
-	if !ok || bound.typed || bound.v.Kind() != constant.Int {
-		return false
+	cint := func(e ast.Expr) (int64, bool) {
+		c, ok := k.constEnv().eval(e)
+		if !ok || c.typed || c.v.Kind() != constant.Int {
+			return 0, false
+		}
+		return constant.Int64Val(c.v)
+	}
+	a, ok1 := cint(from)
+	b, ok2 := cint(to)
+	if !ok1 || !ok2 || a < -1000000 || a > 1000000 || b < -1000000 || b > 1000000 {
+		return 0, false
+	}
+	n := b - a
+	if down {
+		n = a - b
+	}
+	if incl {
+		n++
+	}
+	if n < 0 {
+		n = 0
 	}
 	uses := false
 	ast.Inspect(s.Body, func(x ast.Node) bool {
@@ -315,5 +349,5 @@ func (k *kernel) constBounded(s *ast.ForStmt) bool {
 		}
 		return true
 	})
-	return !uses
+	return n, !uses
 }
